@@ -26,6 +26,7 @@ import SkNet.Lemmas.BreakDist
 import SkNet.Lemmas.UndirectedForest
 import SkNet.Lemmas.CompleteUnd
 import SkNet.Lemmas.SpecSound
+import SkNet.Lemmas.TopologyHelpers
 
 namespace SkNet.C12
 open SkNet SkNet.Connectivity SkNet.Cycles
@@ -174,7 +175,7 @@ theorem largest_component_induced (cc : CC) (m : Mat) (strong : Bool) (r : Large
     ∃ L, L ∈ labels ∧ (∀ l, labels.count l ≤ labels.count L) ∧
       (∀ v, v ∈ r.index ↔ v < labels.length ∧ labels.getD v 0 = L) ∧
       r.index.Pairwise (· < ·) ∧ r.index.length = labels.count L ∧
-      r.matrix.length = r.index.length ∧
+      r.matrix.length = r.index.length ∧ (∀ row ∈ r.matrix, row.length = r.index.length) ∧
       ∀ a b, a < r.index.length → b < r.index.length →
         (r.matrix.getD a []).getD b 0 = m.val (r.index.getD a 0) (r.index.getD b 0) := by
   intro labels
@@ -183,11 +184,12 @@ theorem largest_component_induced (cc : CC) (m : Mat) (strong : Bool) (r : Large
     and_true] at hs
   obtain ⟨_, hidx, hmat, _⟩ := hs
   obtain ⟨hL, hmax⟩ := largest_count_max hlab
-  refine ⟨_, hL, hmax, ?_, ?_, ?_, ?_, ?_⟩
+  refine ⟨_, hL, hmax, ?_, ?_, ?_, ?_, ?_, ?_⟩
   · intro v; rw [hidx]; exact mem_argwhereEq
   · rw [hidx]; exact argwhereEq_sorted _ _
   · rw [hidx]; exact argwhereEq_length _ _
   · rw [hmat]; exact subMatrix_length _ _ _
+  · rw [hmat]; exact subMatrix_row_length _ _ _
   · intro a b ha hb
     rw [hmat]; exact subMatrix_getD m _ _ a b ha hb
 
@@ -230,7 +232,7 @@ theorem largest_component_induced_bipartite (cc : CC) (m : Mat) (strong fb : Boo
       (∀ i, i ∈ rows ↔ i < m.nRow ∧ labels.getD i 0 = L) ∧
       (∀ j, j ∈ cols ↔ j < m.nCol ∧ labels.getD (m.nRow + j) 0 = L) ∧
       rows.Pairwise (· < ·) ∧ cols.Pairwise (· < ·) ∧
-      r.matrix.length = rows.length ∧
+      r.matrix.length = rows.length ∧ (∀ row ∈ r.matrix, row.length = cols.length) ∧
       ∀ a b, a < rows.length → b < cols.length →
         (r.matrix.getD a []).getD b 0 = m.val (rows.getD a 0) (cols.getD b 0) := by
   intro labels
@@ -243,7 +245,7 @@ theorem largest_component_induced_bipartite (cc : CC) (m : Mat) (strong fb : Boo
     have h2 : labels.length = m.nRow + m.nCol := hlen
     omega
   obtain ⟨hL, hmax⟩ := largest_count_max hlab
-  refine ⟨_, _, _, hidx, hni, hL, hmax, ?_, ?_, argwhereEq_sorted _ _, argwhereEq_sorted _ _, ?_, ?_⟩
+  refine ⟨_, _, _, hidx, hni, hL, hmax, ?_, ?_, argwhereEq_sorted _ _, argwhereEq_sorted _ _, ?_, ?_, ?_⟩
   · intro i
     rw [mem_argwhereEq]
     have h2 : labels.length = m.nRow + m.nCol := hlen
@@ -262,8 +264,68 @@ theorem largest_component_induced_bipartite (cc : CC) (m : Mat) (strong fb : Boo
     · intro ⟨h1, h3⟩; exact ⟨by omega, h3⟩
     · intro ⟨h1, h3⟩; exact ⟨by omega, h3⟩
   · rw [hmat]; exact subMatrix_length _ _ _
+  · rw [hmat]; exact subMatrix_row_length _ _ _
   · intro a b ha hb'
     rw [hmat]; exact subMatrix_getD m _ _ a b ha hb'
+
+/-- ★ the largest component of a biadjacency matrix is a whole component, and a largest one: in the numbering of the
+    block graph `[[0,B],[Bᵀ,0]]` (rows first, column `j` is node `nRow + j`) the returned rows and columns
+    `rows ++ cols.map (· + nRow)` are exactly the nodes of one weak / strong component (scipy's contract for the block
+    adjacency), and no component has more nodes. -/
+theorem largest_component_bipartite_is_component (cc : CC) (m : Mat) (strong fb : Bool) (r : Largest)
+    (hb : (fb || !m.isSquare) = true)
+    (h : getLargestConnectedComponent cc m strong fb = .ok r)
+    (hlab : IsLabelling (m.nRow + m.nCol) m.block.adj strong (cc m.block strong)) (hpos : 0 < m.nRow + m.nCol) :
+    let labels := cc m.block strong
+    let comp := r.index.take r.nIndexRow ++ (r.index.drop r.nIndexRow).map (· + m.nRow)
+    (∃ u, u ∈ comp) ∧
+    (∀ u ∈ comp, ∀ v, v < m.nRow + m.nCol → (v ∈ comp ↔ SameComp (m.nRow + m.nCol) m.block.adj strong u v)) ∧
+    (∀ u, u < m.nRow + m.nCol → (argwhereEq labels (labels.getD u 0)).length ≤ comp.length) := by
+  intro labels comp
+  have hlen : labels.length = m.nRow + m.nCol := hlab.1
+  have hs := getLargest_spec cc m strong fb r h
+  simp only [hb, ↓reduceIte, forall_const, Bool.true_eq_false, false_imp_iff, true_and] at hs
+  obtain ⟨_, hidx, hni, _⟩ := hs
+  have hne : labels ≠ [] := by
+    intro hl
+    have : labels.length = 0 := by rw [hl]; rfl
+    omega
+  obtain ⟨hL, hmax⟩ := largest_count_max hne
+  -- name the largest label and the two index parts
+  generalize hLdef : (npUnique labels).getD (argmax ((npUnique labels).map fun v => labels.count v)) 0 = L at hL hmax
+  have hidx' : r.index = argwhereEq (labels.take m.nRow) L ++ argwhereEq (labels.drop m.nRow) L := by
+    rw [← hLdef]; exact hidx
+  have hni' : r.nIndexRow = (argwhereEq (labels.take m.nRow) L).length := by rw [← hLdef]; exact hni
+  have htake : r.index.take r.nIndexRow = argwhereEq (labels.take m.nRow) L := by
+    rw [hidx', hni', List.take_left']; rfl
+  have hdrop : r.index.drop r.nIndexRow = argwhereEq (labels.drop m.nRow) L := by
+    rw [hidx', hni', List.drop_left']; rfl
+  have hcomp : comp = argwhereEq (labels.take m.nRow) L ++ (argwhereEq (labels.drop m.nRow) L).map (· + m.nRow) := by
+    show r.index.take r.nIndexRow ++ (r.index.drop r.nIndexRow).map (· + m.nRow) = _
+    rw [htake, hdrop]
+  have hmem : ∀ v, v ∈ comp ↔ v < labels.length ∧ labels.getD v 0 = L := by
+    intro v
+    rw [hcomp, List.mem_append, List.mem_map]
+    simp only [mem_argwhereEq, List.length_take, List.length_drop, List.getD_eq_getElem?_getD, List.getElem?_take,
+      List.getElem?_drop]
+    constructor
+    · rintro (⟨h1, h2⟩ | ⟨j, ⟨h1, h2⟩, rfl⟩)
+      · have hv : v < m.nRow := by omega
+        exact ⟨by omega, by simpa [hv] using h2⟩
+      · exact ⟨by omega, by rw [Nat.add_comm]; exact h2⟩
+    · rintro ⟨h1, h2⟩
+      by_cases hv : v < m.nRow
+      · left; exact ⟨by omega, by simpa [hv] using h2⟩
+      · right
+        refine ⟨v - m.nRow, ⟨by omega, ?_⟩, by omega⟩
+        have : m.nRow + (v - m.nRow) = v := by omega
+        rw [this]; exact h2
+  have hclen : comp.length = labels.count L := by
+    rw [hcomp, List.length_append, List.length_map, argwhereEq_length, argwhereEq_length, count_take_drop]
+  exact largest_component_is_component (m.nRow + m.nCol) m.block.adj strong labels comp L hlab hL hmax hmem hclen
+
+example : (getLargestConnectedComponent (fun _ _ => [0, 0, 1]) oneByTwo false false).toOption.map (fun r => (r.index, r.nIndexRow))
+    = some ([0, 0], 1) := by decide
 
 /-! ## is_bipartite -/
 
@@ -362,38 +424,6 @@ example : (match isBipartite ⟨3, 3, fun i => [(i + 1) % 3, (i + 2) % 3], fun i
 
 /-! ## is_acyclic -/
 
-theorem resolveDirected_false {m : Mat} {directed : Option Bool} (h : resolveDirected m directed = .ok false) :
-    m.isSymmetric = .ok true := by
-  unfold resolveDirected at h
-  split at h
-  · cases h
-  · split at h
-    · cases h
-    · rename_i s hs
-      split at h
-      · rename_i hst; rw [hs, hst]
-      · cases h
-  · split at h
-    · cases h
-    · rename_i s hs
-      have : s = true := by
-        cases s with
-        | true => rfl
-        | false => simp at h
-      rw [hs, this]
-
-/-- the self-loops recorded first are simple cycles -/
-theorem selfLoop_cycles_simple (m : Mat) (hc : m.Canon) (hsq : m.nRow = m.nCol) (d : Bool) :
-    ∀ c ∈ (selfLoops m).map (fun v => [v]), IsSimpleCycle m.nRow m.adj d c := by
-  intro c hcm
-  obtain ⟨v, hv, rfl⟩ := List.mem_map.mp hcm
-  simp only [selfLoops, List.mem_filter, List.mem_range, decide_eq_true_eq] at hv
-  have hmem : v ∈ m.adj v :=
-    (hc v v hv.1).mpr ⟨hsq ▸ hv.1, fun h => by rw [h] at hv; exact absurd hv.2 (by decide)⟩
-  refine ⟨by simp, by simp [hv.1], ?_, Or.inr (Or.inl rfl)⟩
-  show isChain m.adj ([v] ++ [v]) = true
-  simp [isChain, hmem]
-
 /-- the contract of `connected_components(adjacency, directed=True, connection='strong', return_labels=False)`:
     the number of distinct labels of a labelling by strong components -/
 def IsStrongCount (n : Nat) (adj : Nat → List Nat) (k : Nat) : Prop :=
@@ -453,12 +483,6 @@ example : isAcyclic (fun _ => 3) ⟨3, 3, fun i => if i < 2 then [i + 1] else []
     the number of distinct labels of a labelling by the components of the undirected graph -/
 def IsWeakCount (n : Nat) (adj : Nat → List Nat) (k : Nat) : Prop :=
   ∃ labels, IsLabelling n adj false labels ∧ k = (npUnique labels).length
-
-/-- the rows of an undirected input: symmetric pattern, no duplicate entry -/
-theorem uok_of_canon {m : Mat} (hc : m.Canon) (hsq : m.nRow = m.nCol) (hs : m.isSymmetric = .ok true)
-    (hrows : ∀ i, i < m.nRow → (m.adj i).Nodup) (hnl : ∀ u, u < m.nRow → u ∉ m.adj u) :
-    SkNet.UForest.UOK m.nRow m.adj :=
-  ⟨Canon.wf hc hsq, Canon.sym hc hs, hnl, hrows⟩
 
 /-- ★ `isAcyclic_undirected_iff`: for a graph taken as undirected (flag `False`, or inferred from a symmetric matrix,
     no duplicate entry), with scipy's count of the components, `is_acyclic` answers `True` exactly when the graph has
@@ -918,18 +942,73 @@ theorem breakCycles_subgraph (fuel : Nat) (ext : BreakExt) (m : Mat) (root : Opt
   refine ⟨by rw [hlen]; simp [noLoopRows], fun i j hj => ?_⟩
   exact (mem_noLoopRows m i j).mp (hsub i j hj)
 
-/-- self-loops do not matter for reachability: the adjacency `break_cycles` works on reaches what the input reaches -/
-theorem reach_noLoop_iff (m : Mat) (hwf : WF m.nRow m.adj) {u : Nat} (hu : u < m.nRow) (v : Nat) :
-    Reach m.adj u v ↔ Reach (noLoopRows m).row u v := by
-  constructor
-  · intro h
-    induction h with
-    | refl => exact Reach.refl _
-    | @tail x y hp he ih =>
-      by_cases hxy : y = x
-      · rw [hxy]; exact ih
-      · exact Reach.tail ih ((mem_noLoopRows m x y).mpr ⟨Reach.lt hwf hp hu, he, hxy⟩)
-  · exact Reach.mono (fun x y hy => ((mem_noLoopRows m x y).mp hy).2.1)
+/-- ★ `breakCycles_weights`: the matrix `break_cycles` returns (`breakResult m a`: kept entries with their values) has
+    the shape of the input; each of its stored entries is an off-diagonal stored entry of the input **with the same
+    weight**, and every other entry is 0: a weighted subgraph. (In the model a kept entry carries the input's value
+    because `tril + triu` copies the values and an entry is only ever deleted; the run line compares the values.) -/
+theorem breakCycles_weights (fuel : Nat) (ext : BreakExt) (m : Mat) (root : Option (List Nat))
+    (directed : Option Bool) (a : Rows)
+    (h : breakCyclesWith fuel ext m root directed = .ok (.rows a)) :
+    (breakResult m a).nRow = m.nRow ∧ (breakResult m a).nCol = m.nCol ∧
+    (∀ i j, j ∈ (breakResult m a).adj i →
+      i < m.nRow ∧ j ∈ m.adj i ∧ j ≠ i ∧ (breakResult m a).val i j = m.val i j) ∧
+    (∀ i j, j ∉ (breakResult m a).adj i → (breakResult m a).val i j = 0) := by
+  obtain ⟨_, hsub⟩ := breakCycles_subgraph fuel ext m root directed a h
+  refine ⟨rfl, rfl, fun i j hj => ?_, fun i j hj => ?_⟩
+  · have hj' : j ∈ a.row i := hj
+    obtain ⟨h1, h2, h3⟩ := hsub i j hj'
+    refine ⟨h1, h2, h3, ?_⟩
+    show (if a.has i j then m.val i j else 0) = m.val i j
+    have : a.has i j = true := by simpa [Rows.has] using hj'
+    rw [this]; rfl
+  · have hj' : j ∉ a.row i := hj
+    show (if a.has i j then m.val i j else 0) = 0
+    have : a.has i j = false := by simpa [Rows.has] using hj'
+    rw [this]; rfl
+
+/-- ★ `breakCycles_same_acyclic`: when `break_cycles` takes the early return (`if is_acyclic(adjacency, directed): return
+    adjacency`) the matrix it hands back — the input — has no cycle for the resolved flag: no directed cycle when taken
+    as directed (scipy's count of the strong components), no self-loop and no simple cycle with three nodes or more
+    when taken as undirected (scipy's count of the components, rows without duplicate). -/
+theorem breakCycles_same_acyclic (fuel : Nat) (ext : BreakExt) (m : Mat) (root : Option (List Nat))
+    (directed : Option Bool) (hc : m.Canon) (hsq : m.nRow = m.nCol) (hnn : m.NonNeg)
+    (h : breakCyclesWith fuel ext m root directed = .ok .same) :
+    ∃ d, resolveDirected m directed = .ok d ∧
+      (d = true → IsStrongCount m.nRow m.adj (ext.nCC true) → ¬ HasCycle m.nRow m.adj) ∧
+      (d = false → (∀ i, i < m.nRow → (m.adj i).Nodup) → IsWeakCount m.nRow m.adj (ext.nCC false) →
+        ∀ C, ¬ IsSimpleCycle m.nRow m.adj false C) := by
+  have hac : isAcyclic ext.nCC m directed = .ok true := by
+    unfold breakCyclesWith at h
+    split at h
+    · cases h
+    · assumption
+    · split at h
+      · cases h
+      · split at h
+        · cases h
+        · split at h
+          · cases h
+          · unfold breakDirected at h
+            simp only at h
+            split at h
+            · cases h
+            · cases h
+            · split at h <;> cases h
+          · unfold breakUndirected at h
+            simp only at h
+            split at h <;> cases h
+  cases hd : resolveDirected m directed with
+  | error e => unfold isAcyclic at hac; simp [hd] at hac
+  | ok d =>
+    refine ⟨d, rfl, fun hdt hcc => ?_, fun hdf hrows hcc => ?_⟩
+    · subst hdt
+      obtain ⟨b, hb, hiff⟩ := isAcyclic_directed_iff ext.nCC m directed hc hsq hnn hd hcc
+      rw [hac] at hb
+      exact hiff.mp (Except.ok.inj hb).symm
+    · subst hdf
+      obtain ⟨b, hb, hiff⟩ := isAcyclic_undirected_iff ext.nCC m directed hc hsq hnn hrows hd hcc
+      rw [hac] at hb
+      exact hiff.mp (Except.ok.inj hb).symm
 
 /-- ★ `breakCycles_acyclic` and `breakCycles_reach`, undirected graph (flag `False`, or inferred from a symmetric
     matrix; the branch repaired by `fix:` 14b05e63): with scipy's contract for the components of the loop-free
@@ -1030,15 +1109,6 @@ theorem breakCycles_undirected (fuel : Nat) (ext : BreakExt) (m : Mat) (root : O
                 · have := (List.mem_filter.mp h').2
                   exact hg0.symm y x (by simpa using this)
               exact no_cycle_of_startDone (hdone _ hstart) hC h3 List.mem_cons_self (hg.conn _ _ hreach0)
-
-theorem checkRoot_ok {m : Mat} {root : List Nat} (h : checkRoot m root = .ok ()) : ∀ r ∈ root, r < m.nRow := by
-  unfold checkRoot at h
-  split at h
-  · cases h
-  · rename_i hall
-    intro r hr
-    have : (root.all fun x => decide (x < m.nRow)) = true := by simpa using hall
-    simpa using List.all_eq_true.mp this r hr
 
 /-- ★ `breakCycles_acyclic` and `breakCycles_reach`, directed graph (flag `True`, or inferred from an asymmetric
     matrix): with scipy's contract for the strong components of the loop-free graph, exact hop distances from
@@ -1201,20 +1271,6 @@ theorem breakCycles_directed_c10 (fuel : Nat) (ext : BreakExt) (m : Mat) (rootl 
   cases hdd
   exact hD
 
-theorem noLoopRows_bounds (m : Mat) (hwf : WF m.nRow m.adj) :
-    (∀ u v, v ∈ (noLoopRows m).row u → v < m.nRow) ∧
-    ∀ u, ((noLoopRows m).row u).length ≤ maxOf ((List.range m.nRow).map fun i => (m.adj i).length) + m.nRow := by
-  refine ⟨fun u v hv => ?_, fun u => ?_⟩
-  · obtain ⟨hu, hmem, _⟩ := (mem_noLoopRows m u v).mp hv
-    exact hwf u hu v hmem
-  · unfold noLoopRows Rows.row
-    rw [tab_getD]
-    split
-    · rename_i hu
-      rw [(sortNat_perm _).length_eq]
-      exact Nat.le_trans (List.length_filter_le _ _) (Nat.le_trans (row_length_le_maxOf m u hu) (Nat.le_add_right _ _))
-    · simp
-
 /-- `breakCycles_terminates`: the fuel `breakFuel m` that `breakCycles` hands to its traversals always suffices
     (the loop of `get_distances` itself ends by property C10, `SkNet.C10.getDistances_plain_exact`; the set order must
     not invent or repeat members): `break_cycles` never answers "out of fuel". -/
@@ -1270,6 +1326,89 @@ theorem breakCycles_terminates (ext : BreakExt) (m : Mat) (root : Option (List N
           split
           · rename_i hn; exact absurd hn this
           · simp
+
+/-! ### several roots: reachability is kept from the root *set*, not from each root -/
+
+/-- the 2-cycle 0 ⇄ 1 -/
+def twoCycle : Mat :=
+  ⟨2, 2, fun i => if i = 0 then [1] else if i = 1 then [0] else [],
+    fun i j => if (i = 0 ∧ j = 1) ∨ (i = 1 ∧ j = 0) then 1 else 0⟩
+
+theorem twoCycle_canon : twoCycle.Canon := by
+  intro i j hi
+  have hi' : i < 2 := hi
+  match i, hi' with
+  | 0, _ =>
+    simp only [twoCycle, ↓reduceIte, List.mem_singleton, true_and, Nat.zero_ne_one, false_and, or_false]
+    constructor
+    · intro h; subst h; exact ⟨by decide, by decide⟩
+    · intro ⟨_, h⟩
+      apply Classical.byContradiction
+      intro hne
+      simp [hne] at h
+  | 1, _ =>
+    simp only [twoCycle, Nat.succ_ne_zero, ↓reduceIte, List.mem_singleton, false_and, true_and, false_or]
+    constructor
+    · intro h; subst h; exact ⟨by decide, by decide⟩
+    · intro ⟨_, h⟩
+      apply Classical.byContradiction
+      intro hne
+      simp [hne] at h
+
+/-- The stronger, per-root reading of "keeps every node reachable from the root reachable": every node that *a given*
+    root of the list reaches is still reached by *that* root. -/
+def breakCycles_reach_per_root_full : Prop :=
+  ∀ (fuel : Nat) (ext : BreakExt) (m : Mat) (rootl : List Nat) (directed : Option Bool) (a : Rows),
+    m.Canon → m.nRow = m.nCol → resolveDirected m directed = .ok true →
+    IsLabelling m.nRow (noLoopRows m).row true (ext.labelsNoLoop true) →
+    (∀ l x, x ∈ ext.setOrder l → x ∈ l) → (∀ l x, x ∈ l → x ∈ ext.setOrder l) →
+    breakCyclesWith fuel ext m (some rootl) directed = .ok (.rows a) →
+    ∀ r ∈ rootl, ∀ v, Reach m.adj r v → Reach a.row r v
+
+/-- The per-root reading is false on the code as it is (and the property text speaks of "the root"): on the 2-cycle
+    0 ⇄ 1 with roots [0, 1] both nodes are sub-roots, the traversal from 1 removes 0 → 1 and only 1 → 0 is kept: node 1
+    is no longer reachable from root 0 — it is reachable from the root set, which is what `breakCycles_directed`
+    proves. Replayed on the implementation: `break_cycles(csr([[0,1],[1,0]]), [0, 1], True)` returns `[[0,0],[1,0]]`
+    (case `union` / degenerate stream of the harness, judged by the root-set reading of `c12.spec_break`). -/
+theorem breakCycles_reach_per_root_false : ¬ breakCycles_reach_per_root_full := by
+  intro hfull
+  have hrun : breakCyclesWith 100 { nCC := fun _ => 1, labelsNoLoop := fun _ => [0, 0], setOrder := id }
+      twoCycle (some [0, 1]) (some true) = .ok (.rows [[], [0]]) := by rfl
+  have hlab : IsLabelling twoCycle.nRow (noLoopRows twoCycle).row true [0, 0] :=
+    contract_line_certifies 2 _ (by decide) true _ (by decide)
+  have := hfull 100 { nCC := fun _ => 1, labelsNoLoop := fun _ => [0, 0], setOrder := id } twoCycle [0, 1] (some true)
+    [[], [0]] twoCycle_canon rfl rfl hlab (fun _ _ h => h) (fun _ _ h => h) hrun 0 (by simp) 1
+    (Reach.edge (by decide))
+  -- nothing leaves node 0 in the result
+  have hstuck : ∀ v, Reach (Rows.row [[], [0]]) 0 v → v = 0 := by
+    intro v hr
+    induction hr with
+    | refl => rfl
+    | tail _ he ih =>
+      subst ih
+      simp [Rows.row] at he
+  exact absurd (hstuck 1 this) (by decide)
+
+/-! ### the input domain is inhabited: the example matrices meet `Canon` / `NonNeg` -/
+
+example : twoCycle.NonNeg := by
+  intro i j; show (0 : Rat) ≤ if _ then 1 else 0; split <;> decide
+
+theorem threeCycle_canon : threeCycle.Canon := by
+  intro i j _
+  simp only [threeCycle, List.mem_singleton]
+  constructor
+  · intro h; subst h
+    exact ⟨Nat.mod_lt _ (by decide), by simp⟩
+  · intro ⟨_, h⟩
+    apply Classical.byContradiction
+    intro hne
+    simp [hne] at h
+
+example : threeCycle.NonNeg := by
+  intro i j; show (0 : Rat) ≤ if _ then 1 else 0; split <;> decide
+
+example : resolveDirected threeCycle (some true) = .ok true := rfl
 
 /-- a triangle next to the root's component (the witness of finding F-C12-components): with the repaired code the
     model breaks it too -/
